@@ -62,6 +62,16 @@ pub fn read_outcome(store: &Shared, policy: &Policy, bufs: &[u32], pw: &dyn Fn(u
     *io_out = Some(disk.io.clone());
     let mut ar = ZipArchive::new(disk).map_err(|e| format!("open: {}", zerr_pub(&e)))?;
     let mut out = vec![];
+    // what the archive handle itself reports: entry count, archive comment, names. (offset() is left out on
+    // purpose: with a failed seek before the ZIP64 locator probe an EMPTY archive carrying ZIP64 end records opens
+    // as a plain one whose 76 bytes of ZIP64 records count as prepended data - C11 speaks of entries and content,
+    // and with one entry or more the same fault ends in an error.)
+    {
+        let mut names: Vec<&str> = ar.file_names().collect();
+        names.sort();
+        let nh = crate::rng::fnv(names.join("\u{0}").as_bytes());
+        out.push(EntryOut { meta: format!("archive|{}|{:#x}|{:#x}", ar.len(), crc32(ar.comment()), nh), len: 0, crc: 0, err: None, post_eof_zero: true });
+    }
     for i in 0..ar.len() {
         let opened = match pw(i) {
             Some(p) => match ar.by_index_decrypt(i, &p) {
@@ -78,7 +88,7 @@ pub fn read_outcome(store: &Shared, policy: &Policy, bufs: &[u32], pw: &dyn Fn(u
             Ok(mut f) => {
                 #[allow(deprecated)]
                 let meta = format!(
-                    "{:?}|{}|{}|{}|{:#x}|{:?}|{:#x},{:#x}|{}|{}|{}",
+                    "{:?}|{}|{}|{}|{:#x}|{:?}|{:#x},{:#x}|{:#x}|{:#x}|{:#x}|{}|{}|{}",
                     f.name(),
                     f.compression().to_u16(),
                     f.size(),
@@ -87,6 +97,9 @@ pub fn read_outcome(store: &Shared, policy: &Policy, bufs: &[u32], pw: &dyn Fn(u
                     f.unix_mode(),
                     f.last_modified().datepart(),
                     f.last_modified().timepart(),
+                    crc32(f.name_raw()),
+                    crc32(f.comment().as_bytes()),
+                    crc32(f.extra_data()),
                     f.data_start(),
                     f.header_start(),
                     f.extra_data().len()
@@ -146,6 +159,37 @@ pub fn stream_outcome(store: &Shared, policy: &Policy, bufs: &[u32], io_out: &mu
         if out.len() > 100_000 {
             break;
         }
+    }
+    out
+}
+
+/// everything ZipStreamReader::visit delivers: the files (metadata + content), then the central metadata
+pub fn visit_outcome(store: &Shared, policy: &Policy, bufs: &[u32], io_out: &mut Option<IoH>) -> Vec<EntryOut> {
+    use zip::unstable::stream::{ZipStreamFileMetadata, ZipStreamReader, ZipStreamVisitor};
+    struct V<'a> {
+        out: Vec<EntryOut>,
+        bufs: &'a [u32],
+    }
+    impl ZipStreamVisitor for V<'_> {
+        fn visit_file(&mut self, f: &mut zip::read::ZipFile<'_>) -> zip::result::ZipResult<()> {
+            #[allow(deprecated)]
+            let meta = format!("file|{:?}|{}|{}|{}|{:#x}|{:#x},{:#x}", f.name(), f.compression().to_u16(), f.size(), f.compressed_size(), f.crc32(), f.last_modified().datepart(), f.last_modified().timepart());
+            let (data, err, _) = read_all(f, self.bufs, 1 << 30);
+            self.out.push(EntryOut { meta, len: data.len() as u64, crc: crc32(&data), err: err.map(|e| format!("{:?}/{}", e.kind(), e)), post_eof_zero: true });
+            Ok(())
+        }
+        fn visit_additional_metadata(&mut self, m: &ZipStreamFileMetadata) -> zip::result::ZipResult<()> {
+            self.out.push(EntryOut { meta: format!("meta|{:?}|{:?}|{:?}|{}", m.name(), m.unix_mode(), m.comment(), m.is_dir()), len: 0, crc: 0, err: None, post_eof_zero: true });
+            Ok(())
+        }
+    }
+    let st = SimStream::new(store.clone(), policy.clone());
+    *io_out = Some(st.inner.io.clone());
+    let mut v = V { out: vec![], bufs };
+    let r = ZipStreamReader::new(st).visit(&mut v);
+    let mut out = v.out;
+    if let Err(e) = r {
+        out.push(EntryOut { meta: "stream-error".into(), len: 0, crc: 0, err: Some(zerr_pub(&e)), post_eof_zero: true });
     }
     out
 }
